@@ -62,6 +62,7 @@ PASSES = {
 # buffers) still violates "Add yields P+Q", "Encode returns ...".  Only disagreements at actions the property owns
 # count there; races and foreign disagreements are C16's business and are ignored in this pass.
 CONC_LITE = {"C01", "C02", "C03", "C04", "C05", "C06", "C07", "C08", "C09", "C13", "C14"}
+SETUP_OPS = {"Header", "Reset", "ESetRaw", "ERescale", "SSetInt", "Adopt", "FReset", "FSetInt", "MemReset", "RaceReport"}
 # harness wrappers that stand for several actions
 WRAPPER_OPS = {"EDecodeForm": {"EDecode", "EUnmarshal", "EDecodeComp", "EDecodeUnc", "EDecodeHex"},
                "SDecodeForm": {"SDecode", "SUnmarshal", "SDecodeHex"}}
@@ -76,14 +77,16 @@ MC = {
     "C03": [("MC_Decode.tla", "MC_Decode.cfg", Q_, ()), ("MC_Decode.tla", "MC_Decode_full.cfg", T_, ())],
     "C04": [("MC_GroupLaw.tla", "MC_GroupLaw.cfg", Q_, ()), ("MC_GroupLaw.tla", "MC_GroupLaw_full.cfg", T_, ()), ("MC_Decode.tla", "MC_Decode.cfg", QT, ())],
     "C05": [("MC_GroupLaw.tla", "MC_GroupLaw.cfg", Q_, ()), ("MC_GroupLaw.tla", "MC_GroupLaw_full.cfg", T_, ()), ("MC_GroupLaw.tla", "MC_GroupLaw_67.cfg", T_, ())],
-    "C06": [("MC_Scalars.tla", "MC_Scalars.cfg", QT, ())],
+    "C06": [("MC_Scalars.tla", "MC_Scalars.cfg", QT, ()), ("MC_Mont.tla", "MC_Mont.cfg", QT, ()), ("MC_Mont.tla", "MC_Mont_3limbs.cfg", T_, ())],
+    "C12": [("MC_Mont.tla", "MC_Mont.cfg", QT, ()), ("MC_Mont.tla", "MC_Mont_3limbs.cfg", T_, ())],
     "C07": [("MC_Scalars.tla", "MC_Scalars.cfg", QT, ())],
     "C08": [("MC_Sswu.tla", "MC_Sswu.cfg", QT, ())],
     "C10": [("MC_History.tla", "MC_History_5.cfg", Q_, ()), ("MC_History.tla", "MC_History_6.cfg", T_, ()), ("MC_History.tla", "MC_History_wide.cfg", T_, ())],
     "C11": [("MC_Sswu.tla", "MC_Sswu.cfg", QT, ()), ("MC_Sswu.tla", "MC_Sswu_79.cfg", QT, ())],
     "C13": [("MC_Scalars.tla", "MC_Scalars.cfg", QT, ())],
     "C14": [("MC_Scalars.tla", "MC_Scalars.cfg", QT, ()), ("MC_Ladder.tla", "MC_Ladder.cfg", QT, ())],
-    "C15": [("Conc.tla", "MC_Conc_a.cfg", QT, ()), ("Conc.tla", "MC_Conc_b.cfg", QT, ()), ("Conc.tla", "MC_Conc_c.cfg", QT, ()), ("Conc.tla", "MC_Conc_d.cfg", QT, ())],
+    "C15": [("MemAppend.tla", "MC_MemAppend_fresh.cfg", QT, ()),
+            ("Conc.tla", "MC_Conc_a.cfg", QT, ()), ("Conc.tla", "MC_Conc_b.cfg", QT, ()), ("Conc.tla", "MC_Conc_c.cfg", QT, ()), ("Conc.tla", "MC_Conc_d.cfg", QT, ())],
     "C16": [("Conc.tla", "MC_Conc_b.cfg", QT, ()), ("Conc.tla", "MC_Conc_c.cfg", QT, ()), ("Conc.tla", "MC_Conc_3g.cfg", QT, ())],
     "C18": [("MC_Random.tla", "MC_Random.cfg", Q_, ()), ("MC_Random.tla", "MC_Random_deep.cfg", T_, ())],
     "C19": [("MC_Ladder.tla", "MC_Ladder.cfg", QT, ())],
@@ -101,11 +104,17 @@ DEVIATIONS = {
             ("MC_Decode.tla", "MC_Decode.cfg", 'Dev = "none"', 'Dev = "decode-hybrid-ok"')],
     "C05": [("MC_GroupLaw.tla", "MC_GroupLaw.cfg", 'Dev = "none"', 'Dev = "equal-ignores-y"'),
             ("MC_GroupLaw.tla", "MC_GroupLaw.cfg", 'Dev = "none"', 'Dev = "equal-ignores-x"')],
+    "C06": [("MC_Mont.tla", "MC_Mont.cfg", 'Dev = "none"', 'Dev = "carry-always-one"'),
+            ("MC_Mont.tla", "MC_Mont.cfg", 'Dev = "none"', 'Dev = "add-no-final-sub"')],
+    "C12": [("MC_Mont.tla", "MC_Mont.cfg", 'Dev = "none"', 'Dev = "opp-zero-is-m"')],
     "C10": [("MC_History.tla", "MC_History.cfg", 'Dev = "none"', 'Dev = "equal-ignores-y"')],
     "C13": [("MC_Scalars.tla", "MC_Scalars.cfg", 'Dev = "none"', 'Dev = "compare-montgomery"'),
             ("MC_Scalars.tla", "MC_Scalars.cfg", 'Dev = "none"', 'Dev = "cmov-raw-cond"')],
     "C14": [("MC_Scalars.tla", "MC_Scalars.cfg", 'Dev = "none"', 'Dev = "bits-drop-top"')],
-    "C15": [("Conc.tla", "MC_Conc_b.cfg", "InPlace = FALSE", "InPlace = TRUE")],
+    "C15": [("Conc.tla", "MC_Conc_b.cfg", "InPlace = FALSE", "InPlace = TRUE"),
+            ("MemAppend.tla", "MC_MemAppend_fresh.cfg", 'Strategy = "fresh"', 'Strategy = "append-to-dst"'),
+            ("MemAppend.tla", "MC_MemAppend_fresh.cfg", 'Strategy = "fresh"', 'Strategy = "append-to-msg"'),
+            ("MemAppend.tla", "MC_MemAppend_fresh.cfg", 'Strategy = "fresh"', 'Strategy = "digest-into-dst"')],
     "C16": [("Conc.tla", "MC_Conc_c.cfg", "InPlace = FALSE", "InPlace = TRUE")],
     "C18": [("MC_Random.tla", "MC_Random.cfg", 'Dev = "none"', 'Dev = "zero-check-before-reduce"'),
             ("MC_Random.tla", "MC_Random.cfg", 'Dev = "none"', 'Dev = "single-read"')],
@@ -616,6 +625,7 @@ def check_trace_property(prop, tier, seed, work, replay=None, scale=1.0):
     findings = load_findings()
     violations, known, inconclusive, machinery = [], [], [], []
     total_states = total_lines = 0
+    distinct_cases = set()
     for job, res in zip(jobs, results):
         reasons, gname = job[3], job[4]
         lines = read_lines(res["trace"])
@@ -625,6 +635,13 @@ def check_trace_property(prop, tier, seed, work, replay=None, scale=1.0):
             machinery.append("trace %s not fully consumed by TLC (rc=%s):\n%s" % (os.path.basename(res["trace"]), res["rc"], tail))
             continue
         total_lines += len(lines) - 1
+        for ln in lines[1:]:
+            # distinct non-trivial cases: calls of the library (not setup / bookkeeping events), distinct by action and inputs
+            cut = ln.find(',"obs":')
+            head = ln[:cut] if cut > 0 else ln
+            opm = re.match(r'\{"op":\s*"(\w+)"', head)
+            if opm and opm.group(1) not in SETUP_OPS:
+                distinct_cases.add(hash(head))
         for rec in res["mach"]:
             machinery.append("%s line %d %s: %s %s" % (os.path.basename(res["trace"]), rec["line"], rec["op"], rec["reason"], rec["detail"]))
         for rec in res["dis"]:
@@ -709,6 +726,9 @@ def check_trace_property(prop, tier, seed, work, replay=None, scale=1.0):
         "transitions": mc_trans + total_lines,
         "traces_validated_against_impl": sum(sm["histories"] for sm in summaries) if not machinery else 0,
         "events_validated": total_lines,
+        "evaluations": total_lines,
+        "distinct_nontrivial": len(distinct_cases),
+        "rule": "one case = one call of the library recorded with its inputs and validated by TLC; distinct by (action, receiver/argument ids, concrete inputs); setup and bookkeeping events (Reset, accessor writes, Adopt) are not counted",
         "samples": [json.loads(json.dumps(x)[:1500] if len(json.dumps(x)) <= 1500 else json.dumps({"op": x.get("op"), "note": "large event elided"})) for x in samples] or [{"note": "no events"}],
         "toy_model_checking": [{k: r.get(k) for k in ("module", "cfg", "ok", "generated", "distinct", "wall", "lead", "programs") if k in r} for r in mc_results],
         "trace_files": len(jobs),
